@@ -2,6 +2,7 @@ package main
 
 import (
 	"fmt"
+	"go/token"
 	"strings"
 
 	"golang.org/x/tools/go/ssa"
@@ -13,6 +14,7 @@ func init() {
 			a.c15OwnTag()
 			a.c15VerifyTable("P.tag-table")
 			a.c15Writers()
+			a.c15RestoreOnReject("S.tag-restore")
 			a.c15Dispatch()
 			a.c15Layout()
 		})
@@ -496,4 +498,82 @@ func (a *An) returnsDeep(fn *ssa.Function, depth int) []*ssa.Return {
 		out = append(out, r)
 	}
 	return out
+}
+
+// c15RestoreOnReject: in the two functions that run the tag check and then a handler (receiveDecoded, receiveFragment)
+// every path that went through a handler and may return an error either took the "no error" branch of a test of that
+// error or restored the snapshot of the peer tag: a message that is rejected does not bind the conversation.
+func (a *An) c15RestoreOnReject(rule string) {
+	R := a.R
+	fld := a.MustField("Conversation", "theirInstanceTag")
+	for _, spec := range []struct {
+		fn       string
+		handlers []string
+	}{
+		{"(*Conversation).receiveDecoded", []string{"(*Conversation).receiveDataMessage", "(*Conversation).receiveAKEMessage"}},
+	} {
+		f := a.MustFn(spec.fn)
+		if f == nil || fld == nil {
+			continue
+		}
+		si := statusIndex(f.Signature)
+		paths, complete := a.C.Paths(f, nil, 512)
+		n, good, bad := 0, complete, ""
+		for _, p := range paths {
+			if p.Ret == nil || si < 0 {
+				continue
+			}
+			through := false
+			for _, in := range p.Instrs {
+				if call, ok := in.(ssa.CallInstruction); ok {
+					for _, h := range spec.handlers {
+						if a.F.callName(call) == h {
+							through = true
+						}
+					}
+				}
+			}
+			if !through {
+				continue
+			}
+			n++
+			sv := p.Resolve(resolveLocal(p.Ret.Results[si]))
+			if isNilConst(sv) {
+				continue
+			}
+			restored, testedNil := false, false
+			for _, in := range p.Instrs {
+				if st, ok := in.(*ssa.Store); ok {
+					if fa, isFA := st.Addr.(*ssa.FieldAddr); isFA && fieldOf(fa) == fld {
+						if ld, isLd := st.Val.(*ssa.UnOp); isLd && a.C.rel(a.C.pathOf(ld.X)) == a.C.rel(a.C.pathOf(st.Addr)) {
+							restored = true
+						}
+					}
+				}
+			}
+			for _, d := range p.Decisions {
+				bo, ok := d.If.Cond.(*ssa.BinOp)
+				if !ok || !(isNilConst(bo.Y) || isNilConst(bo.X)) {
+					continue
+				}
+				x := bo.X
+				if isNilConst(x) {
+					x = bo.Y
+				}
+				if p.Resolve(resolveLocal(x)) != sv {
+					continue
+				}
+				isNil := (bo.Op == token.EQL) == d.Truth
+				if isNil {
+					testedNil = true
+				}
+			}
+			if !restored && !testedNil {
+				good = false
+				bad = a.C.InstrPos(p.Ret)
+			}
+		}
+		R.Check(good && n >= 2, rule, spec.fn+"|restore-on-reject", "when a handler rejects the message the peer tag is put back to what it was before the message", a.C.Pos(f.Pos()),
+			fmt.Sprintf("a path through a handler returns a possibly non-nil error at %s without restoring the tag (%d paths, complete=%v): a rejected message binds the conversation to its sender", bad, n, complete))
+	}
 }
